@@ -185,6 +185,17 @@ def unhex(s):
     return bytes.fromhex(s[1:])
 
 
+KEY_LARGE_COUNT = "hang-loop-minimum-unrolled"
+
+
+def has_large_count(src):
+    """a count literal of six or more digits: generateLoop unrolls `min` copies of the body, so Compile's time and memory
+    are proportional to the VALUE of the number (recorded finding, see KNOWN_FINDINGS.txt)"""
+    if isinstance(src, str):
+        src = src.encode("latin1")
+    return re.search(rb"[0-9]{6,}", src) is not None
+
+
 def load_known_findings():
     path = os.path.join(VERIF, "KNOWN_FINDINGS.txt")
     findings = []
